@@ -340,6 +340,10 @@ class FnA:
             return self._project(base, up[1], bi, pos, depth, seen)
         l = place["l"]
         proj = place["p"]
+        if proj and self._mut_borrowed(l) and self.body.local_name(l):
+            # a named local whose address escapes by `&mut`: its fields may be
+            # rewritten by callees, so do not fold through its initialiser
+            return self._project(("param", self.body.local_name(l)), proj, bi, pos, depth, seen)
         base = self.origin_local(l, bi, pos, depth, seen)
         # partial definitions (`_x.f = v`) reaching here refine the field
         if proj:
@@ -354,6 +358,15 @@ class FnA:
                 terms.append(self._project(base, proj, bi, pos, depth, seen))
                 return mkjoin(terms)
         return self._project(base, proj, bi, pos, depth, seen)
+
+    def _mut_borrowed(self, l):
+        if not hasattr(self, "_mb"):
+            self._mb = set()
+            for b in self.live():
+                for st in b.stmts:
+                    if st["k"] == "assign" and st["rv"]["k"] == "ref" and st["rv"]["mut"] and not st["rv"]["place"]["p"]:
+                        self._mb.add(st["rv"]["place"]["l"])
+        return l in self._mb
 
     def _project(self, base, proj, bi, pos, depth, seen):
         t = base
